@@ -4,9 +4,12 @@ Implementation side (worker): write a source file, load it with the real Filetyp
 the format's own formatter through Printer(ansi_color=False, quiet=True), write the text to a file, reload it
 through the same build_tree, compare the trees with the implementation's own `==`, and record what the real
 parsers (json / json5 / csv.reader / csv.writer) make of the printed text.
-Verdicts: Gallina `holds_C12` (implementation's reload equals the original) and `corr_C12` (printed text ==
-jprint / csv_print; jparse / j5parse / csv_read == the real parser on that text) under vm_compute.  Known-finding
-classes are Gallina predicates too (kf_json5_astral, kf_yaml_empty, kf_plist_eq).
+Verdicts: Gallina `holds_C12x` (implementation's reload equals the original) and `corr_C12x` (printed text ==
+jprint / csv_print / yaml_print / plist_print / xml_print; jparse / j5parse / csv_read / yaml_parse / plist_parse /
+xml_parse == what the real parser made of that text) under vm_compute.  Known-finding classes are Gallina
+predicates too (kf_json5_astral, kf_yaml_empty, kf_plist_eq).  For YAML, plist and XML the worker also extracts the
+document as the model's tree: YAML scalars as the text YAMLFormatter.write_obj writes for them (PyYAML is an
+oracle), plist numbers as graphtage's f-string writes them, XML attributes in the tree's order.
 """
 import io
 import json
@@ -18,12 +21,14 @@ import time
 from harness import common
 
 PROP = 'C12'
-THEOREMS = ['C12_json', 'C12_json_string', 'C12_json5', 'C12_json5_refuted']
-MODELS = ['theories/JsonModel.vo', 'theories/CsvModel.vo']
-HEADER = ('From Coq Require Import List Bool ZArith String.\nRequire Import GT.PyBase GT.JsonSpec.\n'
+THEOREMS = ['C12_json', 'C12_json_string', 'C12_json5', 'C12_json5_refuted', 'C12_csv', 'C12_csv_refuted',
+            'C12_struct_yaml', 'C12_struct_yaml_tok', 'C12_struct_yaml_refuted', 'C12_struct_plist', 'C12_struct_xml']
+MODELS = ['theories/JsonModel.vo', 'theories/CsvModel.vo', 'theories/StructModel.vo']
+HEADER = ('From Coq Require Import List Bool ZArith String.\nRequire Import GT.PyBase GT.JsonSpec GT.StructSpec.\n'
           'Import ListNotations.\nOpen Scope Z_scope.\nOpen Scope string_scope.\n')
-MODEL_HEADER = 'Require Import GT.JsonModel GT.CsvModel.\n'
+MODEL_HEADER = 'Require Import GT.JsonModel GT.CsvModel GT.StructModel.\n'
 KF_CLASSES = ['kf_json5_astral', 'kf_yaml_empty', 'kf_plist_eq']
+KF_XCLASSES = ['kf_plist_markup']          # classes defined on the extended case (StructSpec)
 FMT_CTOR = {'json': 'FJson', 'json5': 'FJson5', 'csv': 'FCsv', 'yaml': 'FYaml', 'plist': 'FPlist', 'xml': 'FXml'}
 
 
@@ -67,6 +72,107 @@ def _view(fmt, tree):
     return _enc(tree.to_obj())
 
 
+def _ymodel(node):
+    """graphtage tree -> token tree of the YAML model: scalars as the text YAMLFormatter.write_obj writes for them
+    (the third-party emitter is an oracle); None if the tree has a node the model does not cover."""
+    import graphtage
+    from graphtage import printer as gp
+    from graphtage.yaml import YAMLFormatter
+
+    def tok(leaf):
+        if not isinstance(leaf, graphtage.LeafNode):
+            raise ValueError('non-scalar key')
+        if isinstance(leaf.object, str) and '\n' in leaf.object:
+            raise ValueError('multi-line string')
+        out = io.StringIO()
+        YAMLFormatter.write_obj(gp.Printer(out, ansi_color=False, quiet=True), leaf.object)
+        return [ord(c) for c in out.getvalue()]
+
+    def go(n):
+        if isinstance(n, graphtage.KeyValuePairNode):
+            raise ValueError('bare pair')
+        if isinstance(n, graphtage.MappingNode):
+            return ['d', [[tok(kv.key), go(kv.value)] for kv in n]]
+        if isinstance(n, graphtage.ListNode):
+            return ['l', [go(c) for c in n]]
+        if isinstance(n, graphtage.LeafNode):
+            return ['t', tok(n)]
+        raise ValueError(type(n).__name__)
+    try:
+        return go(node)
+    except ValueError:
+        return None
+
+
+def _pmodel(node):
+    """PLISTNode -> tree of the plist model; number leaves as the text graphtage's f-strings write (str(obj))."""
+    import graphtage
+    from graphtage.plist import PLISTNode
+
+    def cps(s):
+        return [ord(c) for c in s]
+
+    def go(n):
+        if isinstance(n, graphtage.MappingNode):
+            out = []
+            for kv in n:
+                if not isinstance(kv.key, graphtage.StringNode):
+                    raise ValueError('non-string key')
+                out.append([cps(kv.key.object), go(kv.value)])
+            return ['d', out]
+        if isinstance(n, graphtage.ListNode):
+            return ['l', [go(c) for c in n]]
+        if isinstance(n, graphtage.StringNode):
+            return ['s', cps(n.object)]
+        if isinstance(n, graphtage.BoolNode):
+            return ['b', bool(n.object)]
+        if isinstance(n, graphtage.IntegerNode):
+            return ['i', cps(f'{n.object}')]
+        if isinstance(n, graphtage.FloatNode):
+            return ['r', cps(f'{n.object}')]
+        raise ValueError(type(n).__name__)
+    try:
+        if not isinstance(node, PLISTNode):
+            return None
+        return go(node.root)
+    except ValueError:
+        return None
+
+
+def _xmodel(node):
+    """XMLElement -> tree of the XML model (attributes in the tree's order; text as loaded).  None if a string
+    contains one of the five characters html.escape rewrites (not modelled)."""
+    import graphtage
+
+    def cps(s):
+        if any(c in s for c in '&<>"\''):
+            raise ValueError('markup character')
+        return [ord(c) for c in s]
+
+    def go(n):
+        text = n.text.object if n.text is not None else None
+        attrs = []
+        for kv in n.attrib:
+            if not isinstance(kv.key, graphtage.StringNode) or not isinstance(kv.value, graphtage.StringNode):
+                raise ValueError('attribute')
+            attrs.append([cps(kv.key.object), cps(kv.value.object)])
+        return [cps(n.tag.object), attrs, None if text is None else cps(text), [go(c) for c in n._children._children]]
+    try:
+        return go(node)
+    except (ValueError, AttributeError):
+        return None
+
+
+def _smodel(fmt, tree):
+    if fmt == 'yaml':
+        return _ymodel(tree)
+    if fmt == 'plist':
+        return _pmodel(tree)
+    if fmt == 'xml':
+        return _xmodel(tree)
+    return None
+
+
 def impl_roundtrip(item):
     import csv
     import graphtage
@@ -99,6 +205,7 @@ def impl_roundtrip(item):
             res['rows'] = [[[ord(c) for c in cell] for cell in row] for row in t0.to_obj()]
         else:
             res['doc'] = _view(fmt, t0)
+            res['model'] = _smodel(fmt, t0)
         res['stage'] = 'print'
         out = io.StringIO()
         lay = item.get('lay')
@@ -155,6 +262,7 @@ def impl_roundtrip(item):
             res['reload'] = [[[ord(c) for c in cell] for cell in row] for row in t1.to_obj()]
         else:
             res['reload'] = _view(fmt, t1)
+            res['model_reload'] = _smodel(fmt, t1)
         res['stage'] = 'done'
         return res
     finally:
@@ -356,15 +464,20 @@ def gen_plist_items(rng, n):
     return items
 
 
-def gen_xml_elem(rng, depth):
+def gen_xml_elem(rng, depth, plain=False):
     tag = rng.choice('abcdefgrxyz') + ''.join(rng.choice(ALNUM) for _ in range(rng.choice([0, 1, 3])))
     attrs = {}
     for _ in range(rng.choice([0, 0, 1, 2, 3])):
         attrs[rng.choice('abcdekq') + ''.join(rng.choice(ALNUM) for _ in range(rng.choice([0, 2])))] = \
             ''.join(rng.choice(ALNUM) for _ in range(rng.choice([0, 1, 4])))
     s = '<' + tag + ''.join(f' {k}="{v}"' for k, v in attrs.items())
-    kids = [gen_xml_elem(rng, depth - 1) for _ in range(rng.choice([0, 0, 1, 2, 3]) if depth > 0 else 0)]
+    kids = [gen_xml_elem(rng, depth - 1, plain) for _ in range(rng.choice([0, 0, 1, 2, 3]) if depth > 0 else 0)]
     text = rng.choice(['', '', gen_word(rng), ' ' + gen_word(rng) + ' ', '\n  ' + gen_word(rng) + '\n'])
+    if plain:                                          # the theorem's domain: no white space anywhere
+        text = rng.choice(['', gen_word(rng)])
+        if not kids and not text and rng.random() < 0.6:
+            return s + '/>'
+        return s + '>' + text + ''.join(kids) + '</' + tag + '>'
     if not kids and not text and rng.random() < 0.6:
         return s + '/>'
     pad = rng.choice(['', '', '\n', '\n  '])
@@ -373,8 +486,9 @@ def gen_xml_elem(rng, depth):
 
 
 def gen_xml_items(rng, n):
-    return [{'fmt': 'xml', 'src': rng.choice(['', '<?xml version="1.0"?>\n']) + gen_xml_elem(rng, rng.choice([0, 1, 2, 3, 5]))}
-            for _ in range(n)]
+    return [{'fmt': 'xml', 'src': rng.choice(['', '<?xml version="1.0"?>\n']) +
+             gen_xml_elem(rng, rng.choice([0, 1, 2, 3, 5]), plain=(i % 2 == 1))}
+            for i in range(n)]
 
 
 def generate(tier, rng):
@@ -432,11 +546,62 @@ def gtable(t):
     return '[' + '; '.join('[' + '; '.join(gz(c) for c in row) + ']' for row in t) + ']'
 
 
+def gytree(e):
+    k = e[0]
+    if k == 't':
+        return f'(SLeaf {gz(e[1])})'
+    if k == 'l':
+        return '(SList [' + '; '.join(gytree(x) for x in e[1]) + '])'
+    return '(SDict [' + '; '.join(f'({gz(kk)}, {gytree(v)})' for kk, v in e[1]) + '])'
+
+
+def gptree(e):
+    k = e[0]
+    if k == 's':
+        return f'(PStr {gz(e[1])})'
+    if k == 'i':
+        return f'(PInt {gz(e[1])})'
+    if k == 'r':
+        return f'(PReal {gz(e[1])})'
+    if k == 'b':
+        return f'(PBool {gb(e[1])})'
+    if k == 'l':
+        return '(PArr [' + '; '.join(gptree(x) for x in e[1]) + '])'
+    return '(PDict [' + '; '.join(f'({gz(kk)}, {gptree(v)})' for kk, v in e[1]) + '])'
+
+
+def gxtree(e):
+    tag, attrs, text, kids = e
+    return '(XElem %s [%s] %s [%s])' % (gz(tag), '; '.join(f'({gz(k)}, {gz(v)})' for k, v in attrs), gopt(text, gz),
+                                        '; '.join(gxtree(k) for k in kids))
+
+
+def gsmodel(fmt, m):
+    if m is None:
+        return 'MNone'
+    if fmt == 'yaml':
+        return f'(MYaml {gytree(m)})'
+    if fmt == 'plist':
+        return f'(MPlist {gptree(m)})'
+    if fmt == 'xml':
+        return f'(MXml {gxtree(m)})'
+    return 'MNone'
+
+
 def case_term(item, r):
-    """Gallina `case` for an implementation result; None if the source was not a document (not a case)."""
+    """Gallina `xcase` for an implementation result; None if the source was not a document (not a case)."""
     fmt = item['fmt']
     if 'load_error' in r:
         return None
+    t = base_case_term(item, r)
+    if t.startswith('(COther') and 'text' in r and r.get('model') is not None:
+        return '(XStruct (Build_struct_case %s %s %s %s))' % (
+            t[len('(COther '):-1], gz(r['text']), gsmodel(fmt, r['model']), gsmodel(fmt, r.get('model_reload')))
+    return f'(XBase {t})'
+
+
+def base_case_term(item, r):
+    fmt = item['fmt']
     if fmt in ('json', 'json5') and 'text' in r:
         lay = item.get('lay') or [False, False]
         return ('(CJson (Build_json_case %s (%s, %s) %s %s %s %s %s %s))' % (
@@ -486,21 +651,26 @@ def run_items(run, wd, items, st, tag):
         terms.append(t)
         nontrivial = len(r['ok'].get('text', [])) > 8
         run.count([it['fmt'], it.get('lay'), it['src']], nontrivial)
-    evals = ['bad_cases holds_C12', 'bad_cases in_domain_C12'] + [f'bad_cases (fun c => negb ({k} c))' for k in KF_CLASSES]
+        if t.startswith('(XStruct'):
+            run.cov.setdefault('structure_printer_cases_modelled', {}).setdefault(it['fmt'], 0)
+            run.cov['structure_printer_cases_modelled'][it['fmt']] += 1
+    evals = (['bad_cases holds_C12x', 'bad_cases in_domain_C12x'] +
+             [f'bad_cases (fun c => negb ({k} (base_case c)))' for k in KF_CLASSES] +
+             [f'bad_cases (fun c => negb ({k} c))' for k in KF_XCLASSES])
     header = HEADER
     if st['models_ok']:
-        evals.append('bad_cases corr_C12')
+        evals.append('bad_cases corr_C12x')
         header += MODEL_HEADER
     chunk = max(20, -(-len(terms) // (2 * common.NPROC)))
     bad, err = common.coq_eval_cases(wd, 'cases_' + tag, header, terms, evals, chunk=chunk)
     common.log(f'C12 {tag}: {len(items)} items, implementation {t1 - t0:.1f}s, Coq evaluation {time.time() - t1:.1f}s')
     out = {'keep': keep, 'skipped': skipped, 'internal': internal, 'err': err,
-           'bad_holds': [], 'out_domain': [], 'kf': {k: set() for k in KF_CLASSES}, 'bad_corr': []}
+           'bad_holds': [], 'out_domain': [], 'kf': {k: set() for k in KF_CLASSES + KF_XCLASSES}, 'bad_corr': []}
     if not err:
         out['bad_holds'], out['out_domain'] = bad[0], bad[1]
-        for j, k in enumerate(KF_CLASSES):
+        for j, k in enumerate(KF_CLASSES + KF_XCLASSES):
             out['kf'][k] = set(bad[2 + j])
-        out['bad_corr'] = bad[2 + len(KF_CLASSES)] if st['models_ok'] else []
+        out['bad_corr'] = bad[2 + len(KF_CLASSES + KF_XCLASSES)] if st['models_ok'] else []
     return out
 
 
@@ -546,6 +716,9 @@ def check(tier, seed):
         findings = open_findings()
         stats = {'known': {}}
         items = corpus_items() + generate(tier, rng)
+        if os.environ.get('C12_DEV_KNOWN') == '1':         # demonstrate proposed findings (corpus/C12.known.json)
+            have = {f['id'] for f in common.known_findings(PROP)}
+            items = [dict(f['replay']) for f in findings if f['id'] not in have and 'replay' in f] + items
         out = run_items(run, wd, items, st, 'c')
         if out['err']:
             run.violation({'kind': 'case-evaluation-failed', 'error': out['err']}, no_input=True)
@@ -570,9 +743,9 @@ def check(tier, seed):
                 else:
                     it, r = first_corr
                     run.violation(dict(replay_obj(it, r, 'correspondence-broken'),
-                                       what='corr_C12: the printed text differs from jprint/csv_print, or jparse/'
-                                            'j5parse/csv_read disagree with the real parser on it, or csv.writer '
-                                            'quotes a cell differently'), no_input=True)
+                                       what='corr_C12x: the printed text differs from jprint/csv_print/yaml_print/'
+                                            'plist_print/xml_print, or the model reader disagrees with the real parser '
+                                            'on it, or csv.writer quotes a cell differently'), no_input=True)
         for f in findings:
             hits = stats['known'].get(f['id'], [])
             if hits:
@@ -585,15 +758,24 @@ def check(tier, seed):
         run.cov['traces_validated_against_impl'] = n_cases
         run.cov['cases_by_format'] = by_fmt
         run.cov['sources_rejected_by_loader'] = out['skipped']
-        run.cov['json_cases_outside_theorem_domain'] = len(out['out_domain'])
+        run.cov['cases_outside_theorem_domains'] = len(out['out_domain'])
+        od = {}
+        for i in out['out_domain']:
+            f = out['keep'][i][0]['fmt']
+            od[f] = od.get(f, 0) + 1
+        run.cov['cases_outside_theorem_domains_by_format'] = od
         run.cov['known_finding_cases'] = {k: len(v) for k, v in stats['known'].items()}
         run.cov['rule'] = ('source files generated from a seeded grammar: JSON/JSON5 strings over quote, backslash, comma, '
                            'newline, CR, tab, NUL, U+007F, U+00E9, U+2028, U+FEFF, U+FFFF, U+10000, U+1F600, U+10FFFF, lone '
                            'surrogates (as escapes), space, digits; number tokens at +-2^53, +-2^63, +-2^64, 10^30, 5e-324, '
                            '1e308, -0.0, 1e16; empty containers; depth up to 40; all 4 layouts for JSON, one random layout '
                            'per JSON5 document (quick); CSV tables over quote, comma, newline, CR, NUL, non-ASCII with odd '
-                           'quoting and line ends; YAML/plist/XML over alphanumeric content (YAML also {} [] "" for D15). '
-                           'non-trivial = printed text longer than 8 characters; distinct by (format, layout, source)')
+                           'quoting and line ends, ragged and empty rows; YAML/plist/XML over alphanumeric content (YAML also '
+                           '{} [] "" for D15; plist also empty containers; XML with attributes, text, text with '
+                           'surrounding white space, tails), each compared byte for byte with the structure-printer model '
+                           '(yaml_print / plist_print / xml_print) and, inside the theorem domains, the model reader on the '
+                           'printed text with the real loader\'s reload. non-trivial = printed text longer than 8 '
+                           'characters; distinct by (format, layout, source)')
         run.cov['samples'] = [{k: v for k, v in it.items() if k != 'dir'} for it, _ in out['keep'][:3]]
         run.assumptions = [
             'number tokens are opaque: json.dumps(json.loads(tok)) == tok for the tokens json.dumps prints is an oracle '
@@ -601,8 +783,17 @@ def check(tier, seed):
             'jparse / j5parse model json.loads / json5.loads only on the JSON grammar (validated on every printed text); '
             'csv_read models open() universal newlines + the _csv reader state machine for the excel dialect '
             '(validated on every source and every printed text)',
-            'YAML, plist and XML are decided by correspondence-free reload equality through the real loaders only: no '
-            'theorem covers them yet (scalar emitters/parsers of PyYAML, plistlib, expat are not modelled)',
+            'YAML: C12_struct_yaml is parametric in the scalar codec; its hypotheses scalar_rt (PyYAML resolves what it '
+            'emitted back to the same scalar) and scalar_lex (the emitted token is non-empty, without LF, space, colon) '
+            'are third-party behaviour, tested on every case: scalar_lex by yaml_domainb on the tokens write_obj produced, '
+            'scalar_rt by the reload comparison; the block-structure reader yaml_parse is compared with PyYAML\'s reload '
+            'on every in-domain printed text',
+            'plist / XML: number tokens are Python str() of the scalar (opaque); plist_parse / xml_parse model plistlib / '
+            'ElementTree only on the printers\' images (tags without entities, CDATA, comments, namespaces), compared '
+            'with the real reload on every in-domain printed text; PLIST_HEADER / PLIST_FOOTER are constants of the model',
+            'csv cells longer than csv.field_size_limit() (131072) are rejected by the loader and are not modelled; '
+            'XML texts containing a line feed, YAML multi-line strings and multi-document streams are outside the '
+            'structure-printer models (reload-tested only)',
             'Python str ordering used by sorted() in DictNode.from_dict is code-point lexicographic (zlist_leb), '
             'validated by the byte-exact text comparison']
         return run.finish()
@@ -618,7 +809,7 @@ def replay(path):
         return 1
     wd = common.Workdir(PROP + 'r')
     try:
-        st = common.build(MODELS, [])
+        st = common.build(MODELS, MODELS)          # an empty target list would make everything
         run = common.Run(PROP, 'replay', 0)
         out = run_items(run, wd, [dict(item)], st, 'r')
         for it, r in out['keep']:
